@@ -3,8 +3,12 @@
     (the [CharString] of src/unicode.rs). Code-point mode: the segmentation is
     [singletons s], defined here. Grapheme mode: the segmentation is an input
     (what unicode-segmentation returned, supplied by the harness).
+    Since UAX29_Model.v the segmenter itself is modelled as well ([segment]); the
+    harness' cluster lists stay the input of [run_C11]/[check_C11], and
+    [uax29_agree] (part of the correspondence relation [agree]) demands that
+    [segment] reproduces them.
     Definitions only. *)
-From TU Require Import Base.
+From TU Require Import Base UAX29_Model.
 Open Scope N_scope.
 
 (** * Specification vocabulary *)
@@ -181,3 +185,14 @@ Definition check_C11 (v out : val) : bool :=
      && nlist_eqb rm (strip_cps s)
      && nlist_eqb fl (join [32] (strip_cl seg))
    else true).
+
+(** * Correspondence of the segmenter itself (grapheme mode): the model's own
+    [segment] of the text and of the cleaned text must be the cluster lists the
+    real [CharString] produced. Part of [agree], not of [check_C11]: a mismatch
+    is a model/implementation disagreement, not a property failure. *)
+Definition uax29_agree (v : val) : bool :=
+  if v_bool (v_nth 0 v) then
+    let seg := v_clusters (v_nth 1 v) in
+    let seg2 := v_clusters (v_nth 2 v) in
+    cll_eqb (segment (concat seg)) seg && cll_eqb (segment (concat seg2)) seg2
+  else true.
